@@ -1,13 +1,42 @@
-(* C09 correspondence evaluator: for every checked query group the harness hands over the rows of the plain select
-   (time, value) and the aggregate the real shard returned; the model computes the aggregate over the rows
-   (agg_rows = build_stats, the same function the theorems are about) and compares the component the query asked for. *)
+(* C09 correspondence evaluators (run on the harness' cases on every check):
+   1. check_group: for every checked query group the harness hands over the rows of the plain select (time, value) and
+      the aggregate the real shard returned; the model computes the aggregate over the rows (agg_rows = build_stats, the
+      function the theorems are about) and compares the component the query asked for.
+   2. chunk cases: for every (data file, series) the decoded segments, the STORED chunk statistics and the partial
+      results of real pre-aggregation reads; the model checks the hypotheses of the chunk theorems on the real data
+      (segments non-empty, times strictly ascending, stored segment ranges), build_stats of the decoded rows against the
+      stored statistics, and chunk_partial_repaired / chunk_partial_current against every read.
+   3. memtable cases: the statistics the real builder left against mem_stats_repaired / mem_stats_current. *)
 From Coq Require Import ZArith List Bool.
-From OG Require Import C09.Model.
+From OG Require Import C09.Model C09.ChunkModel C09.ChunkProofs.
 Import ListNotations.
 Open Scope Z_scope.
 
-(* fn: 0 count, 1 sum, 2 min, 3 max, 4 first, 5 last; got = None when the shard returned no value for the group *)
-Definition check_group (fn : Z) (rows : list (Z * Z)) (got : option Z) : bool :=
+Definition opt_pair_eqb (a b : option (Z * Z)) : bool :=
+  match a, b with
+  | Some (x, y), Some (u, v) => (x =? u) && (y =? v)
+  | None, None => true
+  | _, _ => false
+  end.
+Definition opt_val_eqb (a b : option (Z * Z)) : bool :=      (* values only *)
+  match a, b with
+  | Some (x, _), Some (u, _) => x =? u
+  | None, None => true
+  | _, _ => false
+  end.
+
+(* ---- 1. query groups ----
+   fn: 0 count, 1 sum, 2 min, 3 max, 4 first, 5 last, 6 mean (got = sum part, gotcnt = count part);
+   got = None when the shard returned no value for the group. A group may hold rows of several series (GROUP BY without
+   host): rows of different series with the same time tie for first / last, any of them is accepted - the model's own
+   choice (sfirst / slast) fixes the time, the value must be the value of a row at that time. *)
+Definition at_time_ok (o : option (Z * Z)) (rows : list (Z * Z)) (got : option Z) : bool :=
+  match o, got with
+  | Some (_, t), Some g => existsb (fun r : Z * Z => (fst r =? t) && (snd r =? g)) rows
+  | None, None => true
+  | _, _ => false
+  end.
+Definition check_group (fn : Z) (rows : list (Z * Z)) (got : option Z) (gotcnt : Z) : bool :=
   let st := agg_rows (map (fun r => (fst r, Some (snd r))) rows) in
   let sel (o : option (Z * Z)) := match o, got with
                                   | Some (v, _), Some g => v =? g
@@ -18,12 +47,106 @@ Definition check_group (fn : Z) (rows : list (Z * Z)) (got : option Z) : bool :=
   else if fn =? 1 then match got with Some g => negb (cnt st =? 0) && (sum st =? g) | None => cnt st =? 0 end
   else if fn =? 2 then sel (smin st)
   else if fn =? 3 then sel (smax st)
-  else if fn =? 4 then sel (sfirst st)
-  else sel (slast st).
+  else if fn =? 4 then at_time_ok (sfirst st) rows got
+  else if fn =? 5 then at_time_ok (slast st) rows got
+  else match got with
+       | Some g => negb (cnt st =? 0) && (fst (mean_num_den st) =? g) && (snd (mean_num_den st) =? gotcnt)
+       | None => (cnt st =? 0) && (gotcnt =? 0)
+       end.
 
-Fixpoint mismatches_from (k : nat) (cs : list (Z * list (Z * Z) * option Z)) : list nat :=
+Fixpoint mismatches_from (k : nat) (cs : list (Z * list (Z * Z) * option Z * Z)) : list nat :=
   match cs with
   | [] => []
-  | (fn, rows, got) :: r => if check_group fn rows got then mismatches_from (S k) r else k :: mismatches_from (S k) r
+  | (fn, rows, got, gc) :: r => if check_group fn rows got gc then mismatches_from (S k) r else k :: mismatches_from (S k) r
   end.
 Definition mismatches := mismatches_from 0.
+
+(* ---- 2. chunks ----
+   kind: 0 integer, 1 float, 2 boolean, 3 string. *)
+Definition use_pre_of (kind : Z) : bool := kind <=? 1.
+
+(* stored statistics of field f: (f, kind, count, sum (integer/float), min (v,t), max (v,t)) *)
+Definition stored := (nat * Z * Z * option Z * option (Z * Z) * option (Z * Z))%type.
+Definition check_stored (segs : list (list mrow)) (s : stored) : bool :=
+  let '(f, kind, c, su, mn, mx) := s in
+  let st := build_stats (concat (map (col f) segs)) in
+  (cnt st =? c)
+  && (if kind <=? 1 then match su with Some x => sum st =? x | None => false end else true)
+  && (if kind <=? 1 then opt_pair_eqb (smin st) mn && opt_pair_eqb (smax st) mx        (* value and time *)
+      else if kind =? 2 then opt_val_eqb (smin st) mn && opt_val_eqb (smax st) mx      (* boolean: value (see NOTES) *)
+      else true).
+
+(* the hypotheses of the chunk theorems, checked on the decoded data: every segment non-empty, times strictly ascending
+   over the chunk, and the stored per-segment time ranges are the first / last time of the segment *)
+Definition check_layout (segs : list (list mrow)) (ranges : list (Z * Z)) : bool :=
+  let tsegs := map (col 0) segs in
+  forallb (fun s : list row => match s with [] => false | _ => true end) tsegs
+  && ascb (concat tsegs)
+  && (length ranges =? length tsegs)%nat
+  && forallb (fun p : list row * (Z * Z) => (rows_lo (fst p) =? fst (snd p)) && (rows_hi (fst p) =? snd (snd p))) (List.combine tsegs ranges).
+
+(* one read: (lo, hi, f, kind, fn, got (value, time)) ; time is -1 for count / sum *)
+Definition read := (Z * Z * nat * Z * Z * option (Z * Z))%type.
+Definition check_read (part : bool -> Z -> Z -> chunk -> stats) (segs : list (list mrow)) (r : read) : bool :=
+  let '(lo, hi, f, kind, fn, got) := r in
+  let c := mk_chunk (map (col f) segs) in
+  let p := part (use_pre_of kind) lo hi c in
+  if fn =? 0 then match got with Some (g, _) => negb (cnt p =? 0) && (cnt p =? g) | None => cnt p =? 0 end
+  else if fn =? 1 then match got with Some (g, _) => negb (cnt p =? 0) && (sum p =? g) | None => cnt p =? 0 end
+  else if fn =? 2 then opt_val_eqb (smin p) got      (* the time of a partial min / max only breaks ties: values *)
+  else if fn =? 3 then opt_val_eqb (smax p) got
+  else if fn =? 4 then opt_pair_eqb (sfirst p) got
+  else opt_pair_eqb (slast p) got.
+
+Fixpoint bad_indices {A} (ok : A -> bool) (k : nat) (l : list A) : list nat :=
+  match l with
+  | [] => []
+  | x :: r => if ok x then bad_indices ok (S k) r else k :: bad_indices ok (S k) r
+  end.
+
+Definition chunk_case := (list (list mrow) * list (Z * Z) * list stored * list read)%type.
+(* result per chunk: layout ok?, indices of stored statistics that disagree, reads that disagree with the repaired
+   model, reads that disagree with the current (pre-4c0ceca) model *)
+Definition eval_chunk (cc : chunk_case) : bool * list nat * list nat * list nat :=
+  let '(segs, ranges, sts, reads) := cc in
+  (check_layout segs ranges,
+   bad_indices (check_stored segs) 0 sts,
+   bad_indices (check_read chunk_partial_repaired segs) 0 reads,
+   bad_indices (check_read chunk_partial_current segs) 0 reads).
+
+(* ---- 3. memtable builders ----
+   got: (set, count, sum, min, max, first, last) as the builder left them for column i of the record *)
+Definition mstat := (nat * Z * bool * Z * option Z * option (Z * Z) * option (Z * Z) * option (Z * Z) * option (Z * Z))%type.
+Definition check_mstat (mem : list row -> stats) (rows : list mrow) (m : mstat) : bool :=
+  let '(i, kind, set, c, su, mn, mx, fi, la) := m in
+  let st := mem (col i rows) in
+  if negb set then cnt st =? 0
+  else (cnt st =? c)
+       && (if kind <=? 1 then match su with Some x => sum st =? x | None => false end else true)
+       && (if kind <=? 2 then opt_pair_eqb (smin st) mn && opt_pair_eqb (smax st) mx else true)
+       && opt_pair_eqb (sfirst st) fi && opt_pair_eqb (slast st) la.
+Definition mem_case := (list mrow * list mstat)%type.
+Definition eval_mem (mc : mem_case) : bool * list nat * list nat :=
+  let '(rows, ms) := mc in
+  (ascb (col 0 rows), bad_indices (check_mstat mem_stats_repaired rows) 0 ms, bad_indices (check_mstat mem_stats_current rows) 0 ms).
+
+(* flattened results for the driver: (case index, kind, item index)
+   chunks: kind 0 layout, 1 stored statistic, 2 read vs repaired model, 3 read vs current model
+   memtable: kind 0 times not ascending, 1 statistic vs repaired model, 2 statistic vs current model *)
+Fixpoint flat_chunks_from (k : nat) (cs : list chunk_case) : list (nat * nat * nat) :=
+  match cs with
+  | [] => []
+  | cc :: rest =>
+    let '(l, s, a, b) := eval_chunk cc in
+    (if l then [] else [(k, 0, 0)%nat]) ++ map (fun i => (k, 1, i)%nat) s ++ map (fun i => (k, 2, i)%nat) a ++ map (fun i => (k, 3, i)%nat) b
+    ++ flat_chunks_from (S k) rest
+  end.
+Definition flat_chunks := flat_chunks_from 0.
+Fixpoint flat_mem_from (k : nat) (cs : list mem_case) : list (nat * nat * nat) :=
+  match cs with
+  | [] => []
+  | mc :: rest =>
+    let '(l, a, b) := eval_mem mc in
+    (if l then [] else [(k, 0, 0)%nat]) ++ map (fun i => (k, 1, i)%nat) a ++ map (fun i => (k, 2, i)%nat) b ++ flat_mem_from (S k) rest
+  end.
+Definition flat_mem := flat_mem_from 0.
